@@ -2,6 +2,8 @@ package main
 
 import (
 	"fmt"
+	"go/token"
+	"sort"
 	"strings"
 
 	"golang.org/x/tools/go/ssa"
@@ -175,6 +177,119 @@ func checkC02(p *Program, r *Reporter) {
 	}
 	// (c) the SegmentTimeline window generator
 	timelineWindow(p, r)
+	// (d) the two delivery modes serve the same kinds of segments
+	deliverySiblings(p, r)
+}
+
+// deliverySiblings: whole-segment and chunked delivery are siblings behind one handler branch.
+// Every content producer that whole-segment delivery calls (a repository function taking the
+// ResponseWriter or returning a segOut) is also called by chunked delivery or dominates each of
+// its call sites; and on the raw-data case (segOut.seg == nil) both reach a successful return.
+func deliverySiblings(p *Program, r *Reporter) {
+	r.Rule("E5-SIBLING", "chunked delivery serves every kind of segment that whole-segment delivery serves (generated subtitles, raw data such as thumbnails)", 4)
+	whole := p.mustFunc(r, pkgApp, "writeLiveSegment")
+	chunked := p.mustFunc(r, pkgApp, "writeChunkedSegment")
+	if whole == nil || chunked == nil {
+		return
+	}
+	isProducer := func(fn *ssa.Function) bool {
+		if !p.isRepoFunc(fn) {
+			return false
+		}
+		for _, prm := range fn.Params {
+			if prm.Type().String() == "net/http.ResponseWriter" {
+				return true
+			}
+		}
+		res := fn.Signature.Results()
+		for i := 0; i < res.Len(); i++ {
+			if strings.HasSuffix(res.At(i).Type().String(), "app.segOut") {
+				return true
+			}
+		}
+		return false
+	}
+	callsOf := func(fn *ssa.Function) map[*ssa.Function]ssa.CallInstruction {
+		out := map[*ssa.Function]ssa.CallInstruction{}
+		for _, b := range fn.Blocks {
+			for _, in := range b.Instrs {
+				if c, ok := in.(ssa.CallInstruction); ok {
+					if callee := c.Common().StaticCallee(); callee != nil {
+						out[callee] = c
+					}
+				}
+			}
+		}
+		return out
+	}
+	chunkedCalls := callsOf(chunked)
+	var producers []*ssa.Function
+	for callee := range callsOf(whole) {
+		if isProducer(callee) {
+			producers = append(producers, callee)
+		}
+	}
+	sort.Slice(producers, func(i, j int) bool { return producers[i].String() < producers[j].String() })
+	for _, prod := range producers {
+		if _, ok := chunkedCalls[prod]; ok {
+			r.Discharge("E5-SIBLING", shortFn(chunked), "calls:"+shortFn(prod), p.pos(chunked.Pos()), "called by chunked delivery as well")
+			continue
+		}
+		sites := callsTo(p, chunked)
+		ok := len(sites) > 0
+		pos := p.pos(chunked.Pos())
+		for _, s := range sites {
+			dominated := false
+			for _, b := range s.Parent().Blocks {
+				for _, in := range b.Instrs {
+					if c, isCall := in.(*ssa.Call); isCall && c.Call.StaticCallee() == prod && instrDominates(c, s.(ssa.Instruction)) {
+						dominated = true
+					}
+				}
+			}
+			if !dominated {
+				ok = false
+				pos = p.pos(s.Pos())
+			}
+		}
+		r.Decide(ok, "E5-SIBLING", shortFn(chunked), "calls:"+shortFn(prod), pos, "every call of chunked delivery is preceded by a call of this producer",
+			"whole-segment delivery serves segments through "+shortFn(prod)+" but chunked (low-latency) delivery never tries it: segments of that kind listed by a low-latency MPD are not served", nil)
+	}
+	// raw-data case
+	for _, fn := range []*ssa.Function{whole, chunked} {
+		ff := factsOf(fn)
+		found := false
+		for _, b := range fn.Blocks {
+			ifi, ok := b.Instrs[len(b.Instrs)-1].(*ssa.If)
+			if !ok {
+				continue
+			}
+			bo, ok := ifi.Cond.(*ssa.BinOp)
+			if !ok || (bo.Op != token.EQL && bo.Op != token.NEQ) {
+				continue
+			}
+			var ptr ssa.Value
+			if isNilConst(bo.Y) {
+				ptr = bo.X
+			} else if isNilConst(bo.X) {
+				ptr = bo.Y
+			}
+			if f, ok := loadedField(ptr); !ok || f != "app.segOut.seg" {
+				continue
+			}
+			found = true
+			nilSide := b.Succs[0]
+			if bo.Op == token.NEQ {
+				nilSide = b.Succs[1]
+			}
+			okSucc := !ff.errOnly[nilSide] && !isErrorExit(nilSide)
+			r.Decide(okSucc, "E5-SIBLING", shortFn(fn), "raw-data-case", p.pos(instrPos(ifi)), "a segment without ISOBMFF data (thumbnail) can be delivered successfully",
+				"a segment without ISOBMFF data (thumbnail image) always ends in an error in this delivery mode although the MPD lists it", nil)
+		}
+		if !found {
+			r.Violate("E5-SIBLING", shortFn(fn), "raw-data-case", p.pos(fn.Pos()), "no test of segOut.seg == nil: raw-data segments (thumbnails) are not distinguished in this delivery mode", nil)
+		}
+	}
 }
 
 func blockInCycle(b *ssa.BasicBlock) bool {
